@@ -903,3 +903,17 @@ package channel
 //@   ensures result1 == nil ==> result0 != nil && fresh(result0) && result0.phase == srcPhase(source) && result0.params == *srcParams(source) && result0.acc == acc
 //@   ensures result1 == nil ==> sameTX(result0.stagingTX, srcStagingTX(source)) && sameTX(result0.currentTX, srcCurrentTX(source))
 //@   callsite newMachine : params == *srcParams(source)
+
+// The ledger's registerer (adjudicator): external.
+//@ interface Registerer
+//@   method Register
+//@     requires recv != nil
+//@ end
+//@ interface AdjudicatorSubscription
+//@   method Close
+//@     requires recv != nil
+//@   method Next
+//@     requires recv != nil
+//@   method Err
+//@     requires recv != nil
+//@ end
